@@ -218,6 +218,8 @@ class Prop:
             if "dim" in kw:
                 d = kw["dim"]
                 tags["dimkind"] = "none" if d is None else ("int" if isinstance(d, int) else "list")
+                if isinstance(d, list) and rng.random() < 0.25:
+                    kw["dim_tuple"] = True; tags["dimkind"] = "tuple"     # the same subset given as a tuple
                 tags["ndims"] = len(a["modes"]) if d is None else (1 if isinstance(d, int) else len(d))
                 tags["negdim"] = bool(d is not None and any(x < 0 for x in ([d] if isinstance(d, int) else d)))
             if op in ("mean", "var", "raw_moment", "normalized_moment"):
@@ -578,12 +580,12 @@ class Prop:
         if op == "sum":
             kw = {"keepdim": case["keepdim"]}
             if case.get("dim") is not None:
-                kw["dim"] = case["dim"]
+                kw["dim"] = tuple(case["dim"]) if case.get("dim_tuple") else case["dim"]
             return self._out(A.sum(**kw) if meth else tn.sum(A, **kw))
         if op == "mean":
             kw = {"keepdim": case["keepdim"]}
             if case.get("dim") is not None:
-                kw["dim"] = case["dim"]
+                kw["dim"] = tuple(case["dim"]) if case.get("dim_tuple") else case["dim"]
             if M is not None:
                 kw["marginals"] = M
             return self._out(A.mean(**kw) if meth else tn.mean(A, **kw))
